@@ -93,6 +93,8 @@ def gen_case(rng, model_key=None, loss=None, force=None):
     # observed states: one or several, in any order
     nobs = int(rng.integers(1, nS + 1))
     obs = [md["states"][i] for i in rng.permutation(nS)[:nobs]]
+    if nobs >= 2 and rng.random() < 0.15:
+        obs[-1] = obs[0]              # two data series (replicate measurements) of one and the same compartment
     # target parameters: all, or a subset in any order
     if rng.random() < 0.3:
         tp = None
